@@ -173,7 +173,7 @@ pub fn c17(a: &Args) -> Report {
     }
     rep.samples.push(json!({"source": srcs[srcs.len() / 2], "checked": "logos-cli stdout == own strip + generate() as token streams; output parses with syn::parse_file"}));
     // ---- histories of invocations against the model file in {absent, fresh, fresh-CRLF, stale}
-    histories(&cli, &work, &mut rep);
+    histories(&cli, &work, &mut rep, a.tier == vcore::enumerate::Tier::Thorough);
     histories_format(&cli, &work, &mut rep);
     let _ = std::fs::remove_dir_all(&work);
     rep
@@ -187,13 +187,19 @@ enum FileState {
     Stale,
 }
 
-fn histories(cli: &Path, work: &Path, rep: &mut Report) {
+fn histories(cli: &Path, work: &Path, rep: &mut Report, thorough: bool) {
     // (the doc string spans two lines, so the generated text has an inner line ending even without rustfmt)
     let src = "#[derive(Logos, Debug)]\n#[doc = \"first line\nsecond line\"]\n#[logos(skip \" \")]\nenum T {\n    #[token(\"a\")]\n    A,\n    #[regex(\"[0-9]+\")]\n    N,\n}\n";
     let inp = work.join("hist_in.rs");
     std::fs::write(&inp, src).unwrap();
-    let ops = ["write", "check", "stale", "crlf", "addnl", "delete"];
-    // all op sequences of length 1..=4 (breadth-first order); each is replayed from scratch
+    // a second, OLDER input that shares the output path (the file then holds the output of the
+    // other input: stale for this one, whatever the modification times say)
+    let inp_b = work.join("hist_in_b.rs");
+    std::fs::write(&inp_b, src.replace("[0-9]+", "[0-7]+")).unwrap();
+    let _ = std::process::Command::new("touch").args(["-d", "2001-01-01 00:00:00", inp_b.to_str().unwrap()]).status();
+    let ops = ["write", "check", "stale", "crlf", "addnl", "delete", "writeB", "checkB", "garbage"];
+    // all op sequences of length 1..=4 (breadth-first order); each is replayed from scratch. Quick
+    // tier: length 4 only over the first six operations, the three further ones up to length 3
     let mut all: Vec<Vec<&str>> = vec![];
     let mut q: VecDeque<Vec<&str>> = VecDeque::new();
     q.push_back(vec![]);
@@ -204,24 +210,33 @@ fn histories(cli: &Path, work: &Path, rep: &mut Report) {
         for op in ops {
             let mut h2 = h.clone();
             h2.push(op);
+            if !thorough && h2.len() == 4 && h2.iter().any(|o| !ops[..6].contains(o)) {
+                continue;
+            }
             all.push(h2.clone());
             q.push_back(h2);
         }
     }
-    let expected_out = {
+    rep.bounds.insert("histories".into(), format!("all sequences over {ops:?} of length <= {}", if thorough { "4" } else { "3, and of length 4 over the first six operations" }));
+    let mut probe_out = |input: &Path, name: &str| -> String {
         // the text a write produces (stdout carries one more line ending from println!)
-        let probe = work.join("hist_probe.rs");
+        let probe = work.join(name);
         let _ = std::fs::remove_file(&probe);
-        run_cli(cli, &[inp.to_str().unwrap(), "--output", probe.to_str().unwrap()]);
+        run_cli(cli, &[input.to_str().unwrap(), "--output", probe.to_str().unwrap()]);
         let t = std::fs::read_to_string(&probe).unwrap_or_default();
-        let stdout = run_cli(cli, &[inp.to_str().unwrap()]).1;
+        let stdout = run_cli(cli, &[input.to_str().unwrap()]).1;
         if t.is_empty() || t.trim_end() != stdout.trim_end() || t.lines().count() < 2 {
             rep.violations.push(Violation { key: "CLI-CHECK/probe".into(), tag: "CLI-CHECK".into(), case: "first write".into(), detail: format!("a write into a fresh file gives {} bytes / {} lines, stdout {} bytes", t.len(), t.lines().count(), stdout.len()), replay: json!({"kind": "c17", "tag": "CLI-CHECK"}) });
         }
         t
     };
+    let expected_a = probe_out(&inp, "hist_probe.rs");
+    let expected_b = probe_out(&inp_b, "hist_probe_b.rs");
+    if expected_a == expected_b {
+        rep.violations.push(Violation { key: "CLI-CHECK/probe2".into(), tag: "CLI-CHECK".into(), case: "two inputs".into(), detail: "two different inputs give the same output".into(), replay: json!({"kind": "c17", "tag": "CLI-CHECK"}) });
+    }
     // the model is the file content: up to date <=> equal to the generated text line by line
-    let classify = |c: &Option<Vec<u8>>| -> FileState {
+    let classify = |c: &Option<Vec<u8>>, expected_out: &str| -> FileState {
         match c {
             None => FileState::Absent,
             Some(b) => {
@@ -246,16 +261,19 @@ fn histories(cli: &Path, work: &Path, rep: &mut Report) {
             let mut states = vec![];
             for (k, step) in h2.iter().enumerate() {
                 let before = std::fs::read(&out).ok();
-                let model = classify(&before);
+                let (input, expected_out) = if step.ends_with('B') { (&inp_b, &expected_b) } else { (&inp, &expected_a) };
+                let model = classify(&before, expected_out);
                 let up_to_date = matches!(model, FileState::Fresh | FileState::FreshCrlf);
+                let not_text = before.as_ref().map_or(false, |b| std::str::from_utf8(b).is_err());
                 match *step {
-                    "write" => {
-                        let (code, _, err) = run_cli(cli, &[inp.to_str().unwrap(), "--output", out.to_str().unwrap()]);
-                        if code != 0 {
-                            bad = Some(format!("step {k} write: exit {code} {err}"));
-                        }
+                    "write" | "writeB" => {
+                        let (code, _, err) = run_cli(cli, &[input.to_str().unwrap(), "--output", out.to_str().unwrap()]);
                         let after = std::fs::read(&out).ok();
-                        if up_to_date {
+                        if code != 0 && not_text && after == before {
+                            // refusing to replace a file that is not text is not something the property speaks about
+                        } else if code != 0 {
+                            bad = Some(format!("step {k} {step}: exit {code} {err}"));
+                        } else if up_to_date {
                             if after != before {
                                 bad = Some(format!("step {k}: write over an up-to-date file (modulo line endings, {model:?}) modified it"));
                             }
@@ -263,8 +281,8 @@ fn histories(cli: &Path, work: &Path, rep: &mut Report) {
                             bad = Some(format!("step {k}: after a write over a {model:?} file the file does not hold the generated output"));
                         }
                     }
-                    "check" => {
-                        let (code, _, _) = run_cli(cli, &[inp.to_str().unwrap(), "--output", out.to_str().unwrap(), "--check"]);
+                    "check" | "checkB" => {
+                        let (code, _, _) = run_cli(cli, &[input.to_str().unwrap(), "--output", out.to_str().unwrap(), "--check"]);
                         if (code == 0) != up_to_date {
                             bad = Some(format!("step {k}: --check exit {code} on a {model:?} file"));
                         }
@@ -292,11 +310,15 @@ fn histories(cli: &Path, work: &Path, rep: &mut Report) {
                             std::fs::write(&out, c).unwrap();
                         }
                     }
+                    "garbage" => {
+                        // bytes that are not text at all (and newer than both inputs)
+                        std::fs::write(&out, b"\xff\xfe\x00garbage\n").unwrap();
+                    }
                     _ => {
                         let _ = std::fs::remove_file(&out);
                     }
                 }
-                states.push((classify(&std::fs::read(&out).ok()), k));
+                states.push((classify(&std::fs::read(&out).ok(), &expected_a), k));
             }
             let _ = std::fs::remove_file(&out);
             (bad, states)
